@@ -26,8 +26,7 @@ RULE = 'R13'
 PROPS = ('C04',)
 INLINE = {'declaration': 'thin alternative rule: visitMal visits its single child',
           'mult': 'read by visitAssociation', 'multatom': 'read by visitAssociation'}
-FLAG_TOKENS = {'asset': ['ABSTRACT'], 'reaches': ['INHERITS'], 'part': ['STAR', 'LPAREN'],
-               'ttcdist': ['LPAREN']}
+FLAG_TOKENS = {'asset': ['ABSTRACT'], 'reaches': ['INHERITS'], 'part': ['STAR', 'LPAREN']}
 INF = 10 ** 6
 
 
